@@ -10,6 +10,35 @@
 // function or a proved lemma.
 
 // =====================================================================================================
+// ASSUMPTIONS (A-iter / A-std8 / A-derive), listed in the header of slices/fit_reassign.vs
+// =====================================================================================================
+impl<T> SeqIter<T> {
+    /// std `Iterator::enumerate`: "Creates an iterator which gives the current iteration count as well as the next value."
+    #[verifier::external_body]
+    pub fn enumerate(self) -> (r: SeqIter<(usize, T)>)
+        ensures r@.len() == self@.len(), forall|i: int| 0 <= i < self@.len() ==> (#[trigger] r@[i]).0 == i && r@[i].1 == self@[i],
+    { unimplemented!() }
+    /// std `Iterator::map_while`: "Creates an iterator that both yields elements based on a predicate and maps. … takes a
+    /// closure … on each element … while it returns Some(_) [yields the value] … after None is returned, [its] job is over"
+    #[verifier::external_body]
+    pub fn map_while<U, F: FnMut(T) -> Option<U>>(self, f: F) -> (r: SeqIter<U>)
+        requires forall|i: int| 0 <= i < self@.len() ==> f.requires((#[trigger] self@[i],)),
+        ensures
+            r@.len() <= self@.len(),
+            forall|i: int| 0 <= i < r@.len() ==> f.ensures((self@[i],), Some(#[trigger] r@[i])),
+            r@.len() < self@.len() ==> f.ensures((self@[r@.len() as int],), None),
+    { unimplemented!() }
+    /// std `Iterator::last`: "Consumes the iterator, returning the last element."
+    #[verifier::external_body]
+    pub fn last(self) -> (r: Option<T>)
+        ensures self@.len() == 0 ==> r is None, self@.len() > 0 ==> r == Some(self@[self@.len() - 1]),
+    { unimplemented!() }
+}
+/// A-iter: `Vec::extend(Vec<T>)` appends the items of the vector (`into_items`, env/seqiter.vs, is only fixed for SeqIter)
+pub broadcast axiom fn axiom_into_items_vec<T>(v: Vec<T>)
+    ensures #[trigger] into_items::<Vec<T>, T>(v) == v@;
+
+// =====================================================================================================
 // sub-sequences
 // =====================================================================================================
 /// f maps the positions of a to positions of b: strictly increasing, item for item
@@ -99,18 +128,12 @@ impl Schedule {
         // A-len: the receiver's tour with all nodes of the path is within the length bound of a tour
         &&& tr.len() + path.len() <= 0x2_0002
     }
-    /// POSTCONDITION of fit_path_into_tour for the result (ntp, ntr, m) = (new_tour_provider, new_tour_receiver,
-    /// moved_nodes).  Depots: a tour that keeps no activity vanishes with its depots; a moved end depot replaces the
-    /// receiver's end depot, a dummy receiver takes no depots -- hence the clauses for the receiver speak about
-    /// activities ("without losing any of its own") and bound the depots from above.
-    pub open spec fn fit_outcome(&self, path: Seq<NodeIdx>, p: VehicleIdx, rcv: VehicleIdx, ntp: Option<Tour>, ntr: Tour, m: Seq<NodeIdx>) -> bool {
+    /// "the provider loses exactly the moved nodes": its new tour (if any) is a tour of the same kind over the same network,
+    /// well-formed (C01 / C10), with exact caches (C09); it holds the old nodes in the old order, without exactly m.
+    /// "a vehicle left without activities disappears": no tour exactly when every node that is not moved is a depot (a dummy
+    /// tour has no depots: exactly when everything is moved)
+    pub open spec fn fit_provider_ok(&self, p: VehicleIdx, ntp: Option<Tour>, m: Seq<NodeIdx>) -> bool {
         let tp = self.sp_tour_of(p);
-        let tr = self.sp_tour_of(rcv);
-        let net = &self.network;
-        // the moved nodes: some of the path's nodes, in the path's order, each once
-        &&& is_subseq(m, path) && m.no_duplicates()
-        // "the provider loses exactly the moved nodes": its new tour is a tour of the same kind over the same network,
-        // well-formed (C01 / C10), with exact caches (C09); it holds the old nodes in the old order, without exactly m
         &&& ntp is Some ==> {
             let t = ntp.unwrap();
             &&& t.is_dummy == tp.is_dummy && t.network == tp.network && t.wf() && t.caches_ok()
@@ -118,16 +141,45 @@ impl Schedule {
             &&& forall|n: NodeIdx| #![trigger t.nodes@.contains(n)] #![trigger tp.nodes@.contains(n)]
                     t.nodes@.contains(n) <==> tp.nodes@.contains(n) && !m.contains(n)
         }
-        // "a vehicle left without activities disappears": no tour exactly when every node that is not moved is a depot
-        // (a dummy tour has no depots: exactly when everything is moved)
-        &&& ntp is None <==> (forall|n: NodeIdx| #[trigger] tp.nodes@.contains(n) && !m.contains(n) ==> net.sp_node(n).sp_is_depot())
-        // "the receiver gains … only the conflict-free ones without losing any of its own": a tour of the same kind over
-        // the same network, in time order (well-formed), exact caches; its activities are exactly its old ones plus the
-        // moved ones; every node it has is an old one or a moved one
+        &&& ntp is None <==> (forall|n: NodeIdx| #[trigger] tp.nodes@.contains(n) && !m.contains(n) ==> self.network.sp_node(n).sp_is_depot())
+    }
+    /// "the receiver gains … only the conflict-free ones without losing any of its own": a tour of the same kind over the
+    /// same network, in time order (well-formed), exact caches; its activities are exactly its old ones plus the moved
+    /// ones; every node it has is an old one or a moved one
+    pub open spec fn fit_receiver_ok(&self, rcv: VehicleIdx, ntr: Tour, m: Seq<NodeIdx>) -> bool {
+        let tr = self.sp_tour_of(rcv);
         &&& ntr.is_dummy == tr.is_dummy && ntr.network == tr.network && ntr.wf() && ntr.caches_ok()
         &&& forall|n: NodeIdx| #![trigger ntr.nodes@.contains(n)] #![trigger tr.nodes@.contains(n)] #![trigger m.contains(n)]
-                !net.sp_node(n).sp_is_depot() ==> (ntr.nodes@.contains(n) <==> tr.nodes@.contains(n) || m.contains(n))
+                !self.network.sp_node(n).sp_is_depot() ==> (ntr.nodes@.contains(n) <==> tr.nodes@.contains(n) || m.contains(n))
         &&& forall|n: NodeIdx| #[trigger] ntr.nodes@.contains(n) ==> tr.nodes@.contains(n) || m.contains(n)
+    }
+    /// POSTCONDITION of fit_path_into_tour for the result (ntp, ntr, m) = (new_tour_provider, new_tour_receiver,
+    /// moved_nodes).  Depots: a tour that keeps no activity vanishes with its depots; a moved end depot replaces the
+    /// receiver's end depot, a dummy receiver takes no depots -- hence the clauses for the receiver speak about
+    /// activities ("without losing any of its own") and bound the depots from above.
+    pub open spec fn fit_outcome(&self, path: Seq<NodeIdx>, p: VehicleIdx, rcv: VehicleIdx, ntp: Option<Tour>, ntr: Tour, m: Seq<NodeIdx>) -> bool {
+        // the moved nodes: some of the path's nodes, in the path's order, each once
+        &&& is_subseq(m, path) && m.no_duplicates()
+        &&& self.fit_provider_ok(p, ntp, m)
+        &&& self.fit_receiver_ok(rcv, ntr, m)
+    }
+    /// LOOP INVARIANT of fit_path_into_tour: k nodes of the path are decided, rem = the nodes of `remaining_path`
+    pub open spec fn fit_inv(&self, path: Seq<NodeIdx>, p: VehicleIdx, rcv: VehicleIdx, ntp: Option<Tour>, ntr: Tour, m: Seq<NodeIdx>,
+            rem: Option<Seq<NodeIdx>>, k: int) -> bool {
+        let n = path.len() as int;
+        &&& self.fit_pre(path, p, rcv)
+        &&& 0 <= k <= n
+        // what is left of the path (Path::new_trusted yields no path for depots only)
+        &&& rem is Some ==> k < n && rem.unwrap() == path.subrange(k, n) && !all_depots(&self.network, rem.unwrap())
+        &&& rem is None ==> all_depots(&self.network, path.subrange(k, n))
+        // the moved nodes are among the decided ones
+        &&& is_subseq(m, path.subrange(0, k))
+        &&& self.fit_provider_ok(p, ntp, m)
+        // the rest of the path still is a block of the provider's tour (`new_tour_provider.as_ref().unwrap()`)
+        &&& rem is Some ==> ntp is Some && contig(&ntp.unwrap(), path.subrange(k, n))
+        &&& self.fit_receiver_ok(rcv, ntr, m)
+        // A-len
+        &&& ntr.len() + (n - k) <= 0x2_0002
     }
 
     // ---- Schedule::fit_reassign: PRECONDITIONS ---------------------------------------------------------------
@@ -590,4 +642,579 @@ pub proof fn lemma_fr_unserved_post(s: &Schedule, segment: Segment, p: VehicleId
             &&& uf.1 == s.unserved_passengers.1 - s.un_sum(tf0, Some(p), rv, m, m.len() as int, false, 1) + s.un_sum(tf0, Some(p), rv, m, m.len() as int, true, 1)
         }) ==> s.fr_unserved_after(segment, p, rcv, tours1, dummies1, uf),
 {
+}
+
+// =====================================================================================================
+// Schedule::fit_path_into_tour: vocabulary and lemmas for the verification of its body
+// =====================================================================================================
+/// the nodes of `remaining_path`
+pub open spec fn opt_nodes(o: Option<Path>) -> Option<Seq<NodeIdx>> {
+    match o { Some(p) => Some(p.node_sequence@), None => None }
+}
+/// the nodes r are a contiguous block of the tour t
+pub open spec fn contig(t: &Tour, r: Seq<NodeIdx>) -> bool {
+    exists|pos: int| 0 <= pos && pos + r.len() <= t.len() && #[trigger] t.nodes@.subrange(pos, pos + r.len()) == r
+}
+/// the items of `path.iter().enumerate()` and of everything map_while / filter / last make of them: (i, r[i])
+pub open spec fn items_ok(s: Seq<(usize, NodeIdx)>, r: Seq<NodeIdx>) -> bool {
+    forall|i: int| 0 <= i < s.len() ==> (#[trigger] s[i]).0 < r.len() && s[i].1 == r[s[i].0 as int]
+}
+pub proof fn lemma_items_filter(s: Seq<(usize, NodeIdx)>, mask: Seq<bool>, r: Seq<NodeIdx>)
+    requires items_ok(s, r),
+    ensures items_ok(mask_filter(s, mask), r),
+    decreases s.len(),
+{
+    if s.len() > 0 && mask.len() == s.len() {
+        let s1 = s.drop_last();
+        assert forall|i: int| 0 <= i < s1.len() implies (#[trigger] s1[i]).0 < r.len() && s1[i].1 == r[s1[i].0 as int] by {
+            assert(s1[i] == s[i]);
+        }
+        lemma_items_filter(s1, mask.drop_last(), r);
+        let f1 = mask_filter(s1, mask.drop_last());
+        let f = mask_filter(s, mask);
+        assert forall|i: int| 0 <= i < f.len() implies (#[trigger] f[i]).0 < r.len() && f[i].1 == r[f[i].0 as int] by {
+            if i < f1.len() { assert(f[i] == f1[i]); } else { assert(f[i] == s[s.len() - 1]); }
+        }
+    }
+}
+/// what the iterator chain of fit_path_into_tour needs, for ALL sequences it may produce (no proof block fits between
+/// the adapters): filtering keeps items of the form (i, r[i])
+pub proof fn lemma_items_chain(r: Seq<NodeIdx>)
+    ensures forall|s: Seq<(usize, NodeIdx)>, mask: Seq<bool>| items_ok(s, r) ==> items_ok(#[trigger] mask_filter(s, mask), r),
+{
+    assert forall|s: Seq<(usize, NodeIdx)>, mask: Seq<bool>| items_ok(s, r) implies items_ok(#[trigger] mask_filter(s, mask), r) by {
+        lemma_items_filter(s, mask, r);
+    }
+}
+pub proof fn lemma_concat_contains(a: Seq<NodeIdx>, b: Seq<NodeIdx>)
+    ensures forall|x: NodeIdx| #[trigger] (a + b).contains(x) <==> a.contains(x) || b.contains(x),
+{
+    let c = a + b;
+    assert forall|x: NodeIdx| #[trigger] c.contains(x) <==> a.contains(x) || b.contains(x) by {
+        if c.contains(x) {
+            let i = choose|i: int| 0 <= i < c.len() && c[i] == x;
+            if i < a.len() { assert(a[i] == x); } else { assert(b[i - a.len()] == x); }
+        }
+        if a.contains(x) { let i = choose|i: int| 0 <= i < a.len() && a[i] == x; assert(c[i] == x); }
+        if b.contains(x) { let i = choose|i: int| 0 <= i < b.len() && b[i] == x; assert(c[a.len() + i] == x); }
+    }
+}
+pub proof fn lemma_subrange_contains(a: Seq<NodeIdx>, i: int, j: int)
+    requires 0 <= i <= j <= a.len(),
+    ensures forall|x: NodeIdx| #[trigger] a.subrange(i, j).contains(x) ==> a.contains(x),
+{
+    let c = a.subrange(i, j);
+    assert forall|x: NodeIdx| #[trigger] c.contains(x) implies a.contains(x) by {
+        let q = choose|q: int| 0 <= q < c.len() && c[q] == x;
+        assert(a[i + q] == x);
+    }
+}
+pub proof fn lemma_subseq_trans(a: Seq<NodeIdx>, b: Seq<NodeIdx>, c: Seq<NodeIdx>)
+    requires is_subseq(a, b), is_subseq(b, c),
+    ensures is_subseq(a, c),
+{
+    let f = choose|f: Seq<int>| #[trigger] subseq_by(a, b, f);
+    let g = choose|g: Seq<int>| #[trigger] subseq_by(b, c, g);
+    let h = Seq::new(a.len(), |k: int| g[f[k]]);
+    assert forall|k: int| 0 <= k < a.len() implies 0 <= #[trigger] h[k] < c.len() && a[k] == c[h[k]] by {
+        assert(0 <= f[k] < b.len());
+        assert(0 <= g[f[k]] < c.len());
+    }
+    assert forall|k: int, l: int| 0 <= k < l < a.len() implies #[trigger] h[k] < #[trigger] h[l] by {
+        assert(f[k] < f[l]);
+        assert(0 <= f[k] && f[l] < b.len());
+        assert(g[f[k]] < g[f[l]]);
+    }
+    assert(subseq_by(a, c, h));
+}
+/// a sub-sequence of a prefix is a sub-sequence of every longer prefix
+pub proof fn lemma_subseq_prefix(m: Seq<NodeIdx>, path: Seq<NodeIdx>, k: int, k2: int)
+    requires 0 <= k <= k2 <= path.len(), is_subseq(m, path.subrange(0, k)),
+    ensures is_subseq(m, path.subrange(0, k2)),
+{
+    let f = choose|f: Seq<int>| #[trigger] subseq_by(m, path.subrange(0, k), f);
+    assert forall|i: int| 0 <= i < m.len() implies 0 <= #[trigger] f[i] < path.subrange(0, k2).len() && m[i] == path.subrange(0, k2)[f[i]] by {
+        assert(m[i] == path.subrange(0, k)[f[i]]);
+    }
+    assert(subseq_by(m, path.subrange(0, k2), f));
+}
+/// appending the next block of the path to the moved nodes
+pub proof fn lemma_subseq_append(m: Seq<NodeIdx>, path: Seq<NodeIdx>, k: int, k2: int)
+    requires 0 <= k <= k2 <= path.len(), is_subseq(m, path.subrange(0, k)),
+    ensures is_subseq(m + path.subrange(k, k2), path.subrange(0, k2)),
+{
+    let f = choose|f: Seq<int>| #[trigger] subseq_by(m, path.subrange(0, k), f);
+    let m2 = m + path.subrange(k, k2);
+    let p2 = path.subrange(0, k2);
+    let g = Seq::new(m2.len(), |i: int| if i < m.len() { f[i] } else { k + (i - m.len()) });
+    assert forall|i: int| 0 <= i < m2.len() implies 0 <= #[trigger] g[i] < p2.len() && m2[i] == p2[g[i]] by {
+        if i < m.len() { assert(m[i] == path.subrange(0, k)[f[i]]); }
+    }
+    assert forall|i: int, j: int| 0 <= i < j < m2.len() implies #[trigger] g[i] < #[trigger] g[j] by {
+        if j < m.len() { assert(f[i] < f[j]); } else if i < m.len() { assert(0 <= f[i] < k); }
+    }
+    assert(subseq_by(m2, p2, g));
+}
+pub proof fn lemma_tour_nodup(t: &Tour)
+    requires t.wf(),
+    ensures t.nodes@.no_duplicates(),
+{
+    assert forall|i: int, j: int| 0 <= i < t.nodes@.len() && 0 <= j < t.nodes@.len() && i != j implies t.nodes@[i] != t.nodes@[j] by {
+        if t.nodes@[i] == t.nodes@[j] { lemma_tour_distinct(t, i, j); }
+    }
+}
+/// the "longest prefix" / "longest suffix" positions are unique
+pub proof fn lemma_start_pos_unique(t: &Tour, x: NodeIdx, a: int, b: int)
+    requires t.is_start_pos(x, a), t.is_start_pos(x, b),
+    ensures a == b,
+{
+    if a < b { assert(!t.network.reach(t.nodes@[b - 1], x)); }
+    if b < a { assert(!t.network.reach(t.nodes@[a - 1], x)); }
+}
+pub proof fn lemma_end_pos_unique(t: &Tour, x: NodeIdx, a: int, b: int)
+    requires t.is_end_pos(x, a), t.is_end_pos(x, b),
+    ensures a == b,
+{
+    if a < b { assert(!t.network.reach(x, t.nodes@[a])); }
+    if b < a { assert(!t.network.reach(x, t.nodes@[b])); }
+}
+
+// ---- the provider's side of one step: Tour::remove -----------------------------------------------------------
+/// what is left after an accepted removal of [s ..= e]: the old nodes in the old order without exactly the block; nothing
+/// but depots is left exactly in the cases in which Tour::remove returns no tour; a block behind e stays a block
+pub proof fn lemma_fit_provider_step(t: &Tour, s: int, e: int, len2: int)
+    requires t.wf(), tour_len_ok(t.nodes@), 0 <= s <= e < t.len(), t.removable(s, e), 0 <= len2, e + 1 + len2 <= t.len(),
+    ensures
+        is_subseq(t.rest(s, e + 1), t.nodes@),
+        forall|x: NodeIdx| #![trigger t.rest(s, e + 1).contains(x)] #![trigger t.nodes@.contains(x)]
+            t.rest(s, e + 1).contains(x) <==> t.nodes@.contains(x) && !t.mid(s, e + 1).contains(x),
+        (if t.is_dummy { t.rest(s, e + 1).len() == 0 } else { t.rest(s, e + 1).len() <= 2 }) <==> all_depots(&t.network, t.rest(s, e + 1)),
+        s + len2 <= t.rest(s, e + 1).len(),
+        t.rest(s, e + 1).subrange(s, s + len2) == t.nodes@.subrange(e + 1, e + 1 + len2),
+{
+    let net = &t.network;
+    let e1 = e + 1;
+    lemma_cuts(t, s, e1);
+    reveal(Tour::pre); reveal(Tour::suf);
+    let rest = t.rest(s, e1);
+    let mid = t.mid(s, e1);
+    let d = e1 - s;
+    assert(rest =~= t.nodes@.subrange(0, s) + t.nodes@.subrange(e1, t.len()));
+    // order
+    let f = Seq::new(rest.len(), |i: int| if i < s { i } else { i + d });
+    assert forall|i: int| 0 <= i < rest.len() implies 0 <= #[trigger] f[i] < t.nodes@.len() && rest[i] == t.nodes@[f[i]] by {}
+    assert forall|i: int, j: int| 0 <= i < j < rest.len() implies #[trigger] f[i] < #[trigger] f[j] by {}
+    assert(subseq_by(rest, t.nodes@, f));
+    // members
+    assert forall|x: NodeIdx| #![trigger rest.contains(x)] #![trigger t.nodes@.contains(x)]
+        rest.contains(x) <==> t.nodes@.contains(x) && !mid.contains(x) by {
+        if rest.contains(x) {
+            let i = choose|i: int| 0 <= i < rest.len() && rest[i] == x;
+            assert(t.nodes@[f[i]] == x);
+            if mid.contains(x) {
+                let j = choose|j: int| 0 <= j < mid.len() && mid[j] == x;
+                assert(t.nodes@[s + j] == x);
+                lemma_tour_distinct(t, f[i], s + j);
+            }
+        }
+        if t.nodes@.contains(x) && !mid.contains(x) {
+            let q = choose|q: int| 0 <= q < t.nodes@.len() && t.nodes@[q] == x;
+            if q < s { assert(rest[q] == x); }
+            else if q < e1 { assert(mid[q - s] == x); }
+            else { assert(rest[q - d] == x); }
+        }
+    }
+    // nothing but depots left
+    if t.is_dummy {
+        if rest.len() > 0 { lemma_tour_kinds(t, f[0]); assert(rest[0] == t.nodes@[f[0]]); assert(!net.sp_node(rest[0]).sp_is_depot()); }
+    } else {
+        lemma_tour_kinds(t, 0); lemma_tour_kinds(t, t.len() - 1);
+        if rest.len() <= 2 {
+            assert forall|i: int| 0 <= i < rest.len() implies (#[trigger] net.sp_node(rest[i])).sp_is_depot() by {
+                // not strands_depot: a remaining depot side has no activity left
+                if s >= 1 && e1 <= t.len() - 1 {
+                    assert(rest.len() == 2 && s == 1 && e1 == t.len() - 1);
+                    if i == 0 { assert(rest[0] == t.nodes@[0]); } else { assert(rest[1] == t.nodes@[t.len() - 1]); }
+                } else if s == 0 {
+                    assert(e1 >= t.len() - 1);
+                    assert(rest[i] == t.nodes@[t.len() - 1]);
+                } else {
+                    assert(e == t.len() - 1 && s <= 1);
+                    assert(rest[i] == t.nodes@[0]);
+                }
+            }
+        } else {
+            // three nodes left: one of them is an inner node
+            if s >= 2 {
+                lemma_tour_kinds(t, 1);
+                assert(rest[1] == t.nodes@[1]);
+                assert(!net.sp_node(rest[1]).sp_is_depot());
+            } else {
+                let q = t.len() - 2;
+                assert(q >= e1);
+                lemma_tour_kinds(t, q);
+                assert(rest[q - d] == t.nodes@[q]);
+                assert(!net.sp_node(rest[q - d]).sp_is_depot());
+            }
+        }
+    }
+    // a block behind the removed one
+    assert(rest.subrange(s, s + len2) =~= t.nodes@.subrange(e1, e1 + len2));
+}
+
+// ---- the receiver's side of one step: Tour::conflict is None, then Tour::insert_path -----------------------------
+/// Tour::conflict found nothing but depots to displace for the block c (its contract, slices/tour_pos.vs)
+pub open spec fn no_conflict(t: &Tour, c: Seq<NodeIdx>) -> bool {
+    exists|s: int, e: int| {
+        &&& 0 <= s <= e <= t.len()
+        &&& (if t.network.sp_node(c[0]).sp_is_depot() { s == 0 } else { t.is_start_pos(c[0], s) })
+        &&& (if t.network.sp_node(c[c.len() - 1]).sp_is_depot() { e == t.len() } else { t.is_end_pos(c[c.len() - 1], e) })
+        &&& #[trigger] all_depots(&t.network, t.nodes@.subrange(s, e))
+    }
+}
+/// Tour::insert_path put the block c into the tour (its contract, slices/tour_mod.vs)
+pub open spec fn inserted(t: &Tour, c: Seq<NodeIdx>, new_nodes: Seq<NodeIdx>) -> bool {
+    exists|s: int, e: int| ins_positions(t, eff_path(t, c), s, e) && 0 <= s <= e <= t.len()
+        && new_nodes == #[trigger] t.spliced(s, e, eff_path(t, c))
+}
+pub proof fn lemma_strip_ends(net: &Network, c: Seq<NodeIdx>)
+    requires net.wf(), path_shape(net, c),
+    ensures
+        strip_depots(net, c).len() >= 1,
+        !net.sp_node(c[0]).sp_is_depot() ==> strip_depots(net, c)[0] == c[0],
+        !net.sp_node(c[c.len() - 1]).sp_is_depot() ==> strip_depots(net, c)[strip_depots(net, c).len() - 1] == c[c.len() - 1],
+        forall|x: NodeIdx| #[trigger] strip_depots(net, c).contains(x) ==> c.contains(x),
+        forall|x: NodeIdx| #[trigger] c.contains(x) && !net.sp_node(x).sp_is_depot() ==> strip_depots(net, c).contains(x),
+{
+    lemma_strip(net, c);
+    let a = if net.sp_node(c[0]).sp_is_depot() { c.subrange(1, c.len() as int) } else { c };
+    let r = strip_depots(net, c);
+    let off: int = if net.sp_node(c[0]).sp_is_depot() { 1 } else { 0 };
+    assert(r.len() >= 1);
+    assert forall|i: int| 0 <= i < r.len() implies #[trigger] r[i] == c[i + off] by {}
+    assert forall|x: NodeIdx| #[trigger] r.contains(x) implies c.contains(x) by {
+        let i = choose|i: int| 0 <= i < r.len() && r[i] == x;
+        assert(c[i + off] == x);
+    }
+    assert forall|x: NodeIdx| #[trigger] c.contains(x) && !net.sp_node(x).sp_is_depot() implies r.contains(x) by {
+        let i = choose|i: int| 0 <= i < c.len() && c[i] == x;
+        assert(i >= off);
+        assert(i - off < r.len()) by {
+            if i - off >= r.len() { assert(i == c.len() - 1); assert(net.sp_node(a[a.len() - 1]).sp_is_depot()); assert(a[a.len() - 1] == c[c.len() - 1]); }
+        }
+        assert(r[i - off] == x);
+    }
+}
+/// the receiver's tour after the block went in: its activities are the old ones plus the block's, nothing else came in
+pub proof fn lemma_fit_receiver_step(t: &Tour, c: Seq<NodeIdx>, new_nodes: Seq<NodeIdx>)
+    requires
+        t.wf(), tour_len_ok(t.nodes@), path_shape(&t.network, c), tour_len_ok(c),
+        no_conflict(t, c), inserted(t, c, new_nodes),
+    ensures
+        forall|x: NodeIdx| #![trigger new_nodes.contains(x)] #![trigger t.nodes@.contains(x)] #![trigger c.contains(x)]
+            !t.network.sp_node(x).sp_is_depot() ==> (new_nodes.contains(x) <==> t.nodes@.contains(x) || c.contains(x)),
+        forall|x: NodeIdx| #[trigger] new_nodes.contains(x) ==> t.nodes@.contains(x) || c.contains(x),
+        new_nodes.len() <= t.len() + c.len(),
+{
+    let net = &t.network;
+    let n = eff_path(t, c);
+    let (s, e) = choose|s: int, e: int| {
+        &&& 0 <= s <= e <= t.len()
+        &&& (if net.sp_node(c[0]).sp_is_depot() { s == 0 } else { t.is_start_pos(c[0], s) })
+        &&& (if net.sp_node(c[c.len() - 1]).sp_is_depot() { e == t.len() } else { t.is_end_pos(c[c.len() - 1], e) })
+        &&& #[trigger] all_depots(net, t.nodes@.subrange(s, e))
+    };
+    let (s2, e2) = choose|s2: int, e2: int| ins_positions(t, n, s2, e2) && 0 <= s2 <= e2 <= t.len() && new_nodes == #[trigger] t.spliced(s2, e2, n);
+    lemma_strip_ends(net, c);
+    lemma_strip(net, c);
+    // s <= s2 <= e2 <= e
+    if !net.sp_node(c[0]).sp_is_depot() {
+        assert(n[0] == c[0]);
+        lemma_start_pos_unique(t, c[0], s, s2);
+    }
+    if !net.sp_node(c[c.len() - 1]).sp_is_depot() {
+        assert(n[n.len() - 1] == c[c.len() - 1]);
+        lemma_end_pos_unique(t, c[c.len() - 1], e, e2);
+    }
+    if t.is_dummy {
+        // a dummy tour has no depots: nothing is displaced
+        if s < e {
+            lemma_tour_kinds(t, s);
+            assert(t.nodes@.subrange(s, e)[0] == t.nodes@[s]);
+            assert(net.sp_node(t.nodes@.subrange(s, e)[0]).sp_is_depot());
+        }
+        assert(s == e);
+    } else {
+        assert(n == c);
+    }
+    assert(s <= s2 <= e2 <= e);
+    assert(path_shape(net, n) && tour_len_ok(n)) by { if t.is_dummy { assert(n.len() <= c.len()); } }
+    lemma_spliced(t, s2, e2, n);
+    lemma_cuts(t, s2, e2);
+    let pre = t.pre(s2); let mid = t.mid(s2, e2); let suf = t.suf(e2);
+    assert forall|i: int| 0 <= i < mid.len() implies (#[trigger] net.sp_node(mid[i])).sp_is_depot() by {
+        assert(mid[i] == t.nodes@.subrange(s, e)[s2 - s + i]);
+    }
+    lemma_concat_contains(pre, n);
+    lemma_concat_contains(pre + n, suf);
+    lemma_concat_contains(pre, mid);
+    lemma_concat_contains(pre + mid, suf);
+    assert(new_nodes == pre + n + suf);
+    assert(t.nodes@ == pre + mid + suf);
+    assert forall|x: NodeIdx| #![trigger new_nodes.contains(x)] #![trigger t.nodes@.contains(x)] #![trigger c.contains(x)]
+        !net.sp_node(x).sp_is_depot() implies (new_nodes.contains(x) <==> t.nodes@.contains(x) || c.contains(x)) by {
+        if mid.contains(x) {
+            let i = choose|i: int| 0 <= i < mid.len() && mid[i] == x;
+            assert(net.sp_node(mid[i]).sp_is_depot());
+        }
+        assert((pre + n + suf).contains(x) <==> (pre + n).contains(x) || suf.contains(x));
+        assert((pre + mid + suf).contains(x) <==> (pre + mid).contains(x) || suf.contains(x));
+    }
+    assert forall|x: NodeIdx| #[trigger] new_nodes.contains(x) implies t.nodes@.contains(x) || c.contains(x) by {
+        assert((pre + n + suf).contains(x) <==> (pre + n).contains(x) || suf.contains(x));
+        assert((pre + mid + suf).contains(x) <==> (pre + mid).contains(x) || suf.contains(x));
+    }
+}
+
+// ---- the loop invariant: initially, what it provides inside an iteration, after a skipped block, after a moved block
+pub proof fn lemma_fit_init(s: &Schedule, path: Seq<NodeIdx>, p: VehicleIdx, rcv: VehicleIdx, t0: Tour, r0: Tour)
+    requires s.fit_pre(path, p, rcv), t0 == s.sp_tour_of(p), r0 == s.sp_tour_of(rcv),
+    ensures s.fit_inv(path, p, rcv, Some(t0), r0, Seq::<NodeIdx>::empty(), Some(path), 0),
+{
+    let tp = s.sp_tour_of(p);
+    let n = path.len() as int;
+    let m = Seq::<NodeIdx>::empty();
+    lemma_subseq_empty(path.subrange(0, 0));
+    lemma_subseq_refl(tp.nodes@);
+    let (i, j) = choose|i: int, j: int| 0 <= i <= j < tp.len() && path == #[trigger] tp.nodes@.subrange(i, j + 1);
+    assert(path.subrange(0, n) =~= path);
+    assert(tp.nodes@.subrange(i, i + n) == path.subrange(0, n));
+    assert(contig(&tp, path.subrange(0, n)));
+    // the provider's tour has an activity (the path has one)
+    let q = choose|q: int| 0 <= q < path.len() && !(#[trigger] s.network.sp_node(path[q])).sp_is_depot();
+    assert(tp.nodes@[i + q] == path[q]);
+    assert(tp.nodes@.contains(path[q]) && !m.contains(path[q]));
+}
+/// what the invariant provides inside an iteration (the preconditions of the callees, the panics)
+pub proof fn lemma_fit_iter(s: &Schedule, path: Seq<NodeIdx>, p: VehicleIdx, rcv: VehicleIdx, ntp: Option<Tour>, ntr: Tour, m: Seq<NodeIdx>,
+        rem: Option<Seq<NodeIdx>>, k: int)
+    requires s.fit_inv(path, p, rcv, ntp, ntr, m, rem, k), rem is Some,
+    ensures
+        rem.unwrap().len() >= 1, rem.unwrap().len() == path.len() - k, tour_len_ok(rem.unwrap()),
+        s.network.wf(),
+        forall|i: int| 0 <= i < rem.unwrap().len() ==> s.network.has(#[trigger] rem.unwrap()[i]),
+        forall|a: int, b: int| 0 <= a <= b <= rem.unwrap().len() ==> all_in_net(&s.network, #[trigger] rem.unwrap().subrange(a, b)),
+        ntp is Some,
+        ntp.unwrap().wf(), ntp.unwrap().caches_ok(), tour_len_ok(ntp.unwrap().nodes@), *ntp.unwrap().network == *s.network,
+        ntr.wf(), ntr.caches_ok(), tour_len_ok(ntr.nodes@), *ntr.network == *s.network,
+        forall|i: int| 0 <= i < ntr.len() ==> s.network.has(#[trigger] ntr.nodes@[i]),
+{
+    let r = rem.unwrap();
+    let t = ntp.unwrap();
+    let tp = s.sp_tour_of(p);
+    lemma_tour_nodup(&tp);
+    lemma_subseq_members(t.nodes@, tp.nodes@);
+    let pos = choose|pos: int| 0 <= pos && pos + r.len() <= t.len() && #[trigger] t.nodes@.subrange(pos, pos + r.len()) == r;
+    assert forall|i: int| 0 <= i < r.len() implies s.network.has(#[trigger] r[i]) by {
+        assert(t.nodes@.subrange(pos, pos + r.len())[i] == t.nodes@[pos + i]);
+        assert(t.network.has(t.nodes@[pos + i]));
+    }
+    assert forall|a: int, b: int| 0 <= a <= b <= r.len() implies all_in_net(&s.network, #[trigger] r.subrange(a, b)) by {
+        assert forall|i: int| 0 <= i < r.subrange(a, b).len() implies #[trigger] s.network.has(r.subrange(a, b)[i]) by {
+            assert(r.subrange(a, b)[i] == r[a + i]);
+        }
+    }
+    assert forall|i: int| 0 <= i < ntr.len() implies s.network.has(#[trigger] ntr.nodes@[i]) by {
+        assert(ntr.network.has(ntr.nodes@[i]));
+    }
+}
+/// the block [0 ..= e] of the remaining path in the provider's tour: its positions, its nodes, its shape
+pub proof fn lemma_fit_chunk(s: &Schedule, path: Seq<NodeIdx>, p: VehicleIdx, rcv: VehicleIdx, ntp: Option<Tour>, ntr: Tour, m: Seq<NodeIdx>,
+        rem: Option<Seq<NodeIdx>>, k: int, e: int)
+    requires s.fit_inv(path, p, rcv, ntp, ntr, m, rem, k), rem is Some, 0 <= e < rem.unwrap().len(),
+    ensures ({
+        let t = ntp.unwrap();
+        let r = rem.unwrap();
+        let a = r[0];
+        let b = r[e];
+        let c = r.subrange(0, e + 1);
+        &&& ntp is Some
+        &&& t.has_node(a) && t.has_node(b) && t.index_of(b) == t.index_of(a) + e && 0 <= t.index_of(a) && t.index_of(b) < t.len()
+        &&& t.index_of(a) + r.len() <= t.len() && t.nodes@.subrange(t.index_of(a), t.index_of(a) + r.len()) == r
+        &&& t.mid(t.index_of(a), t.index_of(b) + 1) == c
+        &&& c == path.subrange(k, k + e + 1) && c.len() == e + 1 && c[0] == a && c[e] == b
+        &&& seg_ordered(&s.network, a, b) && seg_ordered(&ntr.network, a, b)
+        &&& tour_len_ok(c)
+        &&& !all_depots(&s.network, c) ==> path_shape(&ntr.network, c)
+    }),
+{
+    lemma_fit_iter(s, path, p, rcv, ntp, ntr, m, rem, k);
+    let t = ntp.unwrap();
+    let r = rem.unwrap();
+    let net = &t.network;
+    let pos = choose|pos: int| 0 <= pos && pos + r.len() <= t.len() && #[trigger] t.nodes@.subrange(pos, pos + r.len()) == r;
+    let blk = t.nodes@.subrange(pos, pos + r.len());
+    assert(blk[0] == t.nodes@[pos] && blk[e] == t.nodes@[pos + e]);
+    lemma_index_of(&t, r[0], pos);
+    lemma_index_of(&t, r[e], pos + e);
+    lemma_cuts(&t, pos, pos + e + 1);
+    let c = r.subrange(0, e + 1);
+    assert(t.mid(pos, pos + e + 1) =~= c) by {
+        assert forall|i: int| 0 <= i < c.len() implies t.nodes@.subrange(pos, pos + e + 1)[i] == c[i] by {
+            assert(blk[i] == t.nodes@[pos + i]);
+        }
+    }
+    assert(c =~= path.subrange(k, k + e + 1));
+    assert forall|i: int| 0 <= i < c.len() - 1 implies #[trigger] net.reach(c[i], c[i + 1]) by {
+        assert(blk[i] == t.nodes@[pos + i] && blk[i + 1] == t.nodes@[pos + i + 1]);
+        assert(net.reach(t.nodes@[pos + i], t.nodes@[(pos + i) + 1]));
+    }
+    if e > 0 { lemma_ends_sorted(net, t.nodes@, pos, pos + e); }
+}
+/// a block that is not moved: the invariant for the rest of the path (the two tours and the moved nodes are unchanged)
+pub proof fn lemma_fit_skip(s: &Schedule, path: Seq<NodeIdx>, p: VehicleIdx, rcv: VehicleIdx, ntp: Option<Tour>, ntr: Tour, m: Seq<NodeIdx>,
+        rem: Option<Seq<NodeIdx>>, k: int, e: int, rem2: Option<Seq<NodeIdx>>)
+    requires
+        s.fit_inv(path, p, rcv, ntp, ntr, m, rem, k), rem is Some, 0 <= e < rem.unwrap().len(),
+        // Path::new_trusted(node_sequence.split_off(end_pos + 1), ..)
+        all_depots(&s.network, rem.unwrap().subrange(e + 1, rem.unwrap().len() as int)) ==> rem2 is None,
+        !all_depots(&s.network, rem.unwrap().subrange(e + 1, rem.unwrap().len() as int)) ==> rem2 == Some(rem.unwrap().subrange(e + 1, rem.unwrap().len() as int)),
+    ensures s.fit_inv(path, p, rcv, ntp, ntr, m, rem2, k + e + 1),
+{
+    lemma_fit_chunk(s, path, p, rcv, ntp, ntr, m, rem, k, e);
+    let t = ntp.unwrap();
+    let r = rem.unwrap();
+    let n = path.len() as int;
+    let k2 = k + e + 1;
+    let pos = t.index_of(r[0]);
+    assert(r.subrange(e + 1, r.len() as int) =~= path.subrange(k2, n));
+    lemma_subseq_prefix(m, path, k, k2);
+    if rem2 is Some {
+        assert(k2 < n) by { if k2 >= n { assert(path.subrange(k2, n).len() == 0); } }
+        let r2 = path.subrange(k2, n);
+        assert(t.nodes@.subrange(pos + e + 1, pos + e + 1 + r2.len()) =~= r2) by {
+            assert forall|i: int| 0 <= i < r2.len() implies t.nodes@.subrange(pos + e + 1, pos + e + 1 + r2.len())[i] == r2[i] by {
+                assert(t.nodes@.subrange(pos, pos + r.len())[e + 1 + i] == r[e + 1 + i]);
+            }
+        }
+        assert(contig(&t, r2));
+    }
+}
+/// a block that is moved: Tour::remove accepted it (cand = the provider's tour without it), Tour::conflict found nothing
+/// but depots to displace, Tour::insert_path put it into the receiver's tour (nr)
+pub proof fn lemma_fit_move(s: &Schedule, path: Seq<NodeIdx>, p: VehicleIdx, rcv: VehicleIdx, ntp: Option<Tour>, ntr: Tour, m: Seq<NodeIdx>,
+        rem: Option<Seq<NodeIdx>>, k: int, e: int, rem2: Option<Seq<NodeIdx>>, cand: Option<Tour>, nr: Tour)
+    requires
+        s.fit_inv(path, p, rcv, ntp, ntr, m, rem, k), rem is Some, 0 <= e < rem.unwrap().len(),
+        s.fit_inv(path, p, rcv, ntp, ntr, m, rem2, k + e + 1),
+        // Tour::remove(Segment(r[0], r[e])) is Ok((cand, _)) (its contract, slices/tour_mod.vs)
+        ({
+            let t = ntp.unwrap();
+            let lo = t.index_of(rem.unwrap()[0]);
+            let hi = t.index_of(rem.unwrap()[e]);
+            &&& t.removable(lo, hi)
+            &&& cand is Some ==> cand.unwrap().nodes@ == t.rest(lo, hi + 1) && cand.unwrap().is_dummy == t.is_dummy && cand.unwrap().network == t.network
+                    && cand.unwrap().wf() && cand.unwrap().caches_ok()
+            &&& cand is None <==> (if t.is_dummy { t.rest(lo, hi + 1).len() == 0 } else { t.rest(lo, hi + 1).len() <= 2 })
+        }),
+        // Tour::conflict is None, Tour::insert_path
+        no_conflict(&ntr, rem.unwrap().subrange(0, e + 1)),
+        inserted(&ntr, rem.unwrap().subrange(0, e + 1), nr.nodes@),
+        nr.is_dummy == ntr.is_dummy && nr.network == ntr.network && nr.wf() && nr.caches_ok(),
+    ensures s.fit_inv(path, p, rcv, cand, nr, m + rem.unwrap().subrange(0, e + 1), rem2, k + e + 1),
+{
+    lemma_fit_iter(s, path, p, rcv, ntp, ntr, m, rem, k);
+    lemma_fit_chunk(s, path, p, rcv, ntp, ntr, m, rem, k, e);
+    let net = &s.network;
+    let t = ntp.unwrap();
+    let tp = s.sp_tour_of(p);
+    let tr = s.sp_tour_of(rcv);
+    let r = rem.unwrap();
+    let n = path.len() as int;
+    let k2 = k + e + 1;
+    let c = r.subrange(0, e + 1);
+    let m2 = m + c;
+    let lo = t.index_of(r[0]);
+    let hi = t.index_of(r[e]);
+    let len2 = r.len() - (e + 1);
+    lemma_remove_block(&t, lo, hi);
+    assert(path_shape(&ntr.network, c));
+    lemma_concat_contains(m, c);
+    // the moved nodes
+    lemma_subseq_append(m, path, k, k2);
+    // the provider
+    lemma_fit_provider_step(&t, lo, hi, len2);
+    let rest = t.rest(lo, hi + 1);
+    assert forall|x: NodeIdx| #![trigger rest.contains(x)] #![trigger tp.nodes@.contains(x)]
+        rest.contains(x) <==> tp.nodes@.contains(x) && !m2.contains(x) by {
+        assert(rest.contains(x) <==> t.nodes@.contains(x) && !c.contains(x));
+        assert(t.nodes@.contains(x) <==> tp.nodes@.contains(x) && !m.contains(x));
+    }
+    if cand is Some {
+        lemma_subseq_trans(rest, t.nodes@, tp.nodes@);
+    }
+    // no tour <==> nothing but depots is left
+    if all_depots(net, rest) {
+        assert forall|x: NodeIdx| #[trigger] tp.nodes@.contains(x) && !m2.contains(x) implies net.sp_node(x).sp_is_depot() by {
+            assert(rest.contains(x));
+            let i = choose|i: int| 0 <= i < rest.len() && rest[i] == x;
+            assert(net.sp_node(rest[i]).sp_is_depot());
+        }
+    }
+    if forall|x: NodeIdx| #[trigger] tp.nodes@.contains(x) && !m2.contains(x) ==> net.sp_node(x).sp_is_depot() {
+        assert forall|i: int| 0 <= i < rest.len() implies (#[trigger] net.sp_node(rest[i])).sp_is_depot() by {
+            assert(rest.contains(rest[i]));
+            assert(tp.nodes@.contains(rest[i]) && !m2.contains(rest[i]));
+        }
+    }
+    assert(s.fit_provider_ok(p, cand, m2));
+    // the rest of the path still is a block of the provider's tour
+    if rem2 is Some {
+        let r2 = path.subrange(k2, n);
+        assert(r2 =~= r.subrange(e + 1, r.len() as int));
+        assert(r2.len() == len2);
+        assert(t.nodes@.subrange(hi + 1, hi + 1 + len2) =~= r2) by {
+            assert forall|i: int| 0 <= i < r2.len() implies t.nodes@.subrange(hi + 1, hi + 1 + len2)[i] == r2[i] by {
+                assert(t.nodes@.subrange(lo, lo + r.len())[e + 1 + i] == r[e + 1 + i]);
+            }
+        }
+        assert(rest.subrange(lo, lo + len2) == r2);
+        // it has an activity, so a tour is left
+        assert(!all_depots(net, rest)) by {
+            if all_depots(net, rest) {
+                assert forall|i: int| 0 <= i < r2.len() implies (#[trigger] net.sp_node(r2[i])).sp_is_depot() by {
+                    assert(rest.subrange(lo, lo + len2)[i] == rest[lo + i]);
+                    assert(net.sp_node(rest[lo + i]).sp_is_depot());
+                }
+            }
+        }
+        assert(cand is Some);
+        assert(contig(&cand.unwrap(), r2));
+    }
+    // the receiver
+    lemma_fit_receiver_step(&ntr, c, nr.nodes@);
+    assert forall|x: NodeIdx| #![trigger nr.nodes@.contains(x)] #![trigger tr.nodes@.contains(x)] #![trigger m2.contains(x)]
+        !net.sp_node(x).sp_is_depot() implies (nr.nodes@.contains(x) <==> tr.nodes@.contains(x) || m2.contains(x)) by {
+        assert(nr.nodes@.contains(x) <==> ntr.nodes@.contains(x) || c.contains(x));
+        assert(ntr.nodes@.contains(x) <==> tr.nodes@.contains(x) || m.contains(x));
+    }
+    assert forall|x: NodeIdx| #[trigger] nr.nodes@.contains(x) implies tr.nodes@.contains(x) || m2.contains(x) by {
+        if ntr.nodes@.contains(x) { assert(tr.nodes@.contains(x) || m.contains(x)); }
+    }
+    assert(s.fit_receiver_ok(rcv, nr, m2));
+}
+/// at the end of the loop: the contract
+pub proof fn lemma_fit_done(s: &Schedule, path: Seq<NodeIdx>, p: VehicleIdx, rcv: VehicleIdx, ntp: Option<Tour>, ntr: Tour, m: Seq<NodeIdx>, k: int)
+    requires s.fit_inv(path, p, rcv, ntp, ntr, m, None, k),
+    ensures s.fit_outcome(path, p, rcv, ntp, ntr, m),
+{
+    let tp = s.sp_tour_of(p);
+    lemma_subseq_prefix(m, path, k, path.len() as int);
+    assert(path.subrange(0, path.len() as int) =~= path);
+    lemma_tour_nodup(&tp);
+    let (i, j) = choose|i: int, j: int| 0 <= i <= j < tp.len() && path == #[trigger] tp.nodes@.subrange(i, j + 1);
+    assert forall|a: int, b: int| 0 <= a < path.len() && 0 <= b < path.len() && a != b implies path[a] != path[b] by {
+        assert(path[a] == tp.nodes@[i + a] && path[b] == tp.nodes@[i + b]);
+    }
+    lemma_subseq_members(m, path);
 }
